@@ -112,7 +112,7 @@ func TestVF_C09_ReproS3(t *testing.T) {
 	}
 }
 
-// TestVF_C09_ReproS12 is the minimal reproduction of known finding S12: sharded
+// TestVF_C09_ReproS12 is the minimal reproduction of finding S12 (fixed in /repo): sharded
 // Pebble keeps its per-node caches across RemoveNodeData, so the first saves of
 // a new life of that replica in the same process are filtered against the
 // removed life. (Not reachable through NodeHost, which refuses to restart a
